@@ -69,7 +69,7 @@ def make_environ(r):
         "REQUEST_METHOD": r.method,
         "SCRIPT_NAME": _wsgi_str(r.root_path),
         "PATH_INFO": _wsgi_str(r.path),
-        "QUERY_STRING": r.query,
+        "QUERY_STRING": _wsgi_str(r.query),
         "SERVER_NAME": r.server[0],
         "SERVER_PORT": str(r.server[1]),
         "SERVER_PROTOCOL": "HTTP/" + r.http_version,
@@ -104,7 +104,7 @@ def make_scope(r, extensions=None):
         "scheme": r.scheme,
         "path": r.path,
         "raw_path": r.path.encode("utf-8"),
-        "query_string": r.query.encode("latin-1"),
+        "query_string": r.query.encode("utf-8"),
         "root_path": r.root_path,
         "headers": [(k.lower().encode("latin-1"), v.encode("latin-1")) for k, v in r.headers],
         "server": tuple(r.server) if r.server else None,
